@@ -673,7 +673,10 @@ class MBXML:
         assert precision >= 1, f"write_sfloatvar precision must be at least 1 decimal"
         int_part = int(value)
         dec_part = int(abs(value % (1 if value >= 0 else -1)) * 128**precision)
-        integer = cls.write_sintvar(int_part, negative_zero=value < 0)
+        # -0.0 < 0 is False, the sign of a negative zero is only visible to copysign
+        integer = cls.write_sintvar(
+            int_part, negative_zero=math.copysign(1, value) < 0
+        )
         decimal = cls.write_fraction(dec_part, precision)
         return integer + decimal
 
